@@ -77,7 +77,7 @@ for name, old, new, systems in EDITS:
     if only and name.split()[0] not in only: continue
     assert src.count(old) == 1, (name, src.count(old))
     open(P, 'w').write(src.replace(old, new))
-    env = dict(os.environ, VERIF_REPO='/tmp/repo_c09s', VERIF_EXTRA_FINDINGS='/verif/findings/C09/proposed_findings.json')
+    env = dict(os.environ, VERIF_REPO='/tmp/repo_c09s', VERIF_X='1')
     t0 = time.time()
     r = subprocess.run(['./check', 'C09', '--tier', 'quick', '--workers', '4', '--no-evidence', '--systems', systems], cwd='/verif', env=env, capture_output=True, text=True)
     viol = [l for l in r.stdout.splitlines() if l.startswith('VIOLATION')]
